@@ -45,6 +45,89 @@ def gen(t):
     a('w_slerp', '%s& o, const %s& p, const %s& q, const %s& tt' % (Q, Q, Q, E), 'o = slerp(p, q, tt);')
     return tu
 
+def gen_sinc(t):
+    E = ELEM[t][0]
+    tu = TU('c10x_' + t)
+    tu.add('w_sinc', '%s& o, const %s& x' % (E, E), 'o = sinx_over_x(x);')
+    return tu
+
+def check_sinc(rep, R, t):
+    """R10.sinc: sinx_over_x(x) is sin(x)/x except on a small-argument branch that returns 1, and that branch is closed to
+    every |x| >= 1 of either sign (interval evaluation of the guard over (-inf,-1] and [1,inf)): slerp calls it with
+    (1-t)*a and t*a, which are negative for t slightly outside [0,1]"""
+    E, sz, lt = ELEM[t]
+    oid = 'sinx_over_x<%s>' % E
+    S = R.get('w_sinc')
+    if S is None:
+        rep.ob(oid, 'R10.sinc', UNDECIDED, R.err.get('w_sinc', 'not analysed')); return
+    where = fn_where(S.fn)
+    try:
+        o = S.out('a0', 0, sz, lt); x = agg.scalar_in('a1', t)
+        INF = float('inf')
+        def iv(n, X, memo):
+            r = memo.get(n.id)
+            if r is not None: return r
+            if n is x: r = X
+            elif n.op == 'const':
+                v = T.const_value(n)
+                if isinstance(v, str): raise vg.Unsupported('non-finite constant in the guard')
+                r = (float(v), float(v))
+            elif n.op == 'fneg':
+                a = iv(n.args[0], X, memo); r = (-a[1], -a[0])
+            elif n.op == 'absi' or (n.op == 'call' and 'fabs' in str(n.attr)):
+                a = iv(n.args[0], X, memo)
+                r = (0.0 if a[0] <= 0 <= a[1] else min(abs(a[0]), abs(a[1])), max(abs(a[0]), abs(a[1])))
+            elif n.op == 'fmul':
+                a, b = iv(n.args[0], X, memo), iv(n.args[1], X, memo)
+                if n.args[0] is n.args[1]:
+                    lo = 0.0 if a[0] <= 0 <= a[1] else min(a[0] * a[0], a[1] * a[1]); r = (lo, max(a[0] * a[0], a[1] * a[1]))
+                else:
+                    def m(p_, q_): return 0.0 if (p_ == 0 or q_ == 0) else p_ * q_
+                    c_ = [m(a[0], b[0]), m(a[0], b[1]), m(a[1], b[0]), m(a[1], b[1])]; r = (min(c_), max(c_))
+            elif n.op == 'fadd':
+                a, b = iv(n.args[0], X, memo), iv(n.args[1], X, memo); r = (a[0] + b[0], a[1] + b[1])
+            elif n.op == 'call' and n.attr == 'sqrt':
+                a = iv(n.args[0], X, memo)
+                if a[0] < 0: raise vg.Unsupported('sqrt of a possibly negative interval')
+                r = (a[0] ** 0.5, a[1] ** 0.5)
+            elif n.op in ('fpext', 'fptrunc'):
+                r = iv(n.args[0], X, memo)
+            else: raise vg.Unsupported('operation %s in the small-argument guard' % n.op)
+            memo[n.id] = r
+            return r
+        def cond_on(c, X):
+            """True / False / None on the interval"""
+            neg = False
+            while c.op == 'not': c = c.args[0]; neg = not neg
+            if c.op != 'fcmp' or c.attr not in ('olt', 'ole', 'oeq'): raise vg.Unsupported('guard %s' % T.show(c, 2))
+            memo = {}
+            a, b = iv(c.args[0], X, memo), iv(c.args[1], X, memo)
+            if c.attr == 'oeq': v = False if (a[1] < b[0] or b[1] < a[0]) else None
+            elif c.attr == 'olt': v = True if a[1] < b[0] else (False if a[0] >= b[1] else None)
+            else: v = True if a[1] <= b[0] else (False if a[0] > b[1] else None)
+            return (not v) if (neg and v is not None) else v
+        one = T.fp_from_value(lt, 1.0)
+        want = T.binop('fdiv', T.call('sin', [x], lt), x, lt)
+        nbig = 0
+        for X, name in (((-INF, -1.0), 'x <= -1'), ((1.0, INF), 'x >= 1')):
+            t_ = o
+            for _ in range(8):
+                if t_.op != 'ite': break
+                v = cond_on(t_.args[0], X)
+                if v is None: raise vg.Unsupported('guard %s undetermined for %s' % (T.show(t_.args[0], 3)[:80], name))
+                t_ = t_.args[1] if v else t_.args[2]
+            if t_ is one or (t_.op == 'const' and T.const_value(t_) == 1):
+                rep.ob(oid, 'R10.sinc', VIOLATED, 'for every %s the function returns 1 instead of sin(x)/x: the small-argument guard %s is open on that side (slerp passes (1-t)*a and t*a, negative for t outside [0,1])' % (name, T.show(o.args[0], 3)[:80] if o.op == 'ite' else ''), where); return
+            if t_ is not want and not T.equiv(t_, want):
+                rep.ob(oid, 'R10.sinc', VIOLATED, 'for %s the value is %s, not sin(x)/x' % (name, T.show(t_, 3)[:120]), where); return
+            nbig += 1
+        small = [lf for lits, lf in T.leaves(o, 64) if not (lf is want or T.equiv(lf, want))]
+        if not small or not all(lf is one or (lf.op == 'const' and T.const_value(lf) == 1) for lf in small):
+            rep.ob(oid, 'R10.sinc', VIOLATED, 'the small-argument value is %s, expected 1' % [T.show(l_, 2) for l_ in small][:2], where); return
+        rep.ob(oid, 'R10.sinc', HOLDS, 'sin(x)/x for every |x| >= 1 of either sign; 1 on the small-argument branch', where)
+    except vg.Unsupported as e:
+        rep.ob(oid, 'R10.sinc', UNDECIDED, str(e)[:300], where)
+
 def gen_opaque(t):
     E = ELEM[t][0]
     Q = 'Quat<%s>' % E
@@ -85,8 +168,9 @@ def tiny(c):
 def main(rep, ws, tier):
     types = 'f' if tier == 'quick' else 'fd'
     tus = [gen(t) for t in types]; tuo = [gen_opaque(t) for t in types]
-    tuq = [gen_squad(t) for t in types]; tup = [gen_spline(t) for t in types]
-    an = Analysed(ws, tus + tuo + tuq + tup, rep)
+    tuq = [gen_squad(t) for t in types]; tup = [gen_spline(t) for t in types]; tux = [gen_sinc(t) for t in types]
+    an = Analysed(ws, tus + tuo + tuq + tup + tux, rep)
+    for tx, t in zip(tux, types): check_sinc(rep, an[tx], t)
     for tq, tp, t in zip(tuq, tup, types):
         E, sz, lt = ELEM[t]
         for RR, fn in ((an[tq], 'intermediate'), (an[tq], 'squad'), (an[tp], 'spline')):
